@@ -4,7 +4,7 @@
 From Coq Require Import ZArith List Bool.
 From V Require Import base.Cal gen.RrTables rr.RRBase rr.RRNorm rr.RRMasks rr.RRIter rr.RRSpec
   rr.RRTablesThm rr.RRIterThm rr.RRRefuted rr.RRWeekDefs rr.RRWeekThm rr.RRWeekFinal rr.RRWeekCal
-  rr.RRWeekTop rr.RROverlay rr.RREasterThm rr.RRNwdThm rr.RRAdvanceThm rr.RRNwdCal rr.RRDaysetThm rr.RRSubdailyThm rr.RRFilterThm rr.RRFilterSpec.
+  rr.RRWeekTop rr.RROverlay rr.RREasterThm rr.RRNwdThm rr.RRAdvanceThm rr.RRNwdCal rr.RRDaysetThm rr.RRSubdailyThm rr.RRFilterThm rr.RRFilterSpec rr.RRPassThm rr.RRGateThm rr.RRTimesetThm rr.RRYearlyThm rr.RRYearlyEasterThm.
 Import ListNotations.
 Open Scope Z_scope.
 
@@ -330,3 +330,191 @@ Theorem C01_day_filter_correct_weekno_guarded : forall r rl y month ii i,
   day_rejected rl ii i = Ok (negb (day_ok r (jan1 y + i))).
 Proof. exact day_filter_correct_weekno_guarded. Qed.
 Print Assumptions C01_day_filter_correct_weekno_guarded.
+
+(* ... and with BYEASTER for the years where C19 proves easter() right: the strongest layer-4
+   statement proved.  Missing from DESIGN's day_filter_correct: nth-weekday BYDAY (mask proved, not
+   plugged in) and the 7-day extension of WEEKLY rules. *)
+Theorem C01_day_filter_correct_guarded : forall r rl y month ii i,
+  normalize r = Ok rl -> spec_wf r = true -> plain_only r = true ->
+  all_opt (r_byweekno r) weekno_safe = true ->
+  (r_byeaster r = None \/ 1583 <= y <= 4099) ->
+  2 <= y <= 9999 -> rebuild rl ii_init y month = Ok ii -> 0 <= i < year_len y ->
+  day_rejected rl ii i = Ok (negb (day_ok r (jan1 y + i))).
+Proof. exact day_filter_correct_guarded. Qed.
+Print Assumptions C01_day_filter_correct_guarded.
+
+(* MONTHLY rules with nth weekdays (plain OR nth -- fix 5028dcd), on the days of the cursor's month *)
+Theorem C01_day_filter_correct_monthly_nth_guarded : forall r rl y month ii i,
+  normalize r = Ok rl -> spec_wf r = true -> r_freq r = MONTHLY -> truthy (bynweekday rl) = true ->
+  all_opt (r_byweekno r) weekno_safe = true ->
+  (r_byeaster r = None \/ 1583 <= y <= 4099) ->
+  2 <= y <= 9999 -> 1 <= month <= 12 -> rebuild rl ii_init y month = Ok ii ->
+  dbm y month <= i < dbm y (month + 1) ->
+  day_rejected rl ii i = Ok (negb (day_ok r (jan1 y + i))).
+Proof. exact day_filter_correct_monthly_nth_guarded. Qed.
+Print Assumptions C01_day_filter_correct_monthly_nth_guarded.
+
+(* YEARLY rules without BYMONTH with nth weekdays (n-th weekday of the year), every day of the year *)
+Theorem C01_day_filter_correct_yearly_nth_guarded : forall r rl y month ii i,
+  normalize r = Ok rl -> spec_wf r = true -> r_freq r = YEARLY -> r_bymonth r = None ->
+  truthy (bynweekday rl) = true ->
+  all_opt (r_byweekno r) weekno_safe = true ->
+  (r_byeaster r = None \/ 1583 <= y <= 4099) ->
+  2 <= y <= 9999 -> rebuild rl ii_init y month = Ok ii -> 0 <= i < year_len y ->
+  day_rejected rl ii i = Ok (negb (day_ok r (jan1 y + i))).
+Proof. exact day_filter_correct_yearly_nth_guarded. Qed.
+Print Assumptions C01_day_filter_correct_yearly_nth_guarded.
+
+(* ------------------------------------------------------------------ layers 4+5 composed: one YEARLY pass *)
+(* the filter loop replaces exactly the rejected indices by None (any rejection function) *)
+Theorem C01_filter_loop_correct : forall rl ii rej ylen, 0 <= ylen ->
+  (forall i, 0 <= i < ylen -> day_rejected rl ii i = Ok (rej i)) ->
+  let ds := map Some (zrange 0 ylen) in
+  filter_loop rl ii (py_slice ds 0 ylen) ds false =
+  Ok (map (mark rej) (zrange 0 ylen), existsb rej (zrange 0 ylen)).
+Proof. exact filter_loop_correct. Qed.
+Print Assumptions C01_filter_loop_correct.
+
+(* one pass of a YEARLY rule (BYMONTH, BYMONTHDAY, BYYEARDAY, plain BYDAY, guarded BYWEEKNO, BYEASTER
+   in 1583..4099): the surviving days are exactly the days of calendar year y accepted by
+   RRSpec.day_ok, in order = the day list of RRSpec.cands_coarse for that period *)
+Theorem C01_yearly_pass_days_correct : forall r rl y month ii,
+  normalize r = Ok rl -> spec_wf r = true -> r_freq r = YEARLY -> plain_only r = true ->
+  all_opt (r_byweekno r) weekno_safe = true ->
+  (r_byeaster r = None \/ 1583 <= y <= 4099) ->
+  2 <= y <= 9999 -> rebuild rl ii_init y month = Ok ii ->
+  exists ds ds' f,
+    getdayset rl ii y month 1 = Ok (ds, 0, year_len y) /\
+    filter_loop rl ii (py_slice ds 0 (year_len y)) ds false = Ok (ds', f) /\
+    map (fun i => yearordinal ii + i) (somes (py_slice ds' 0 (year_len y))) =
+    filter (day_ok r) (zrange (jan1 y) (jan1 (y + 1))).
+Proof. exact yearly_pass_days_correct. Qed.
+Print Assumptions C01_yearly_pass_days_correct.
+
+(* without BYSETPOS the days x times loop is the gate applied to [(day, time) | day, time] *)
+Theorem C01_out_days_is_gate : forall rl yo ts sl cnt out,
+  (forall i, In i (somes sl) -> from_ordinal (yo + i) = Ok (yo + i)) ->
+  out_days rl yo sl ts cnt out =
+  gate_list rl (flat_map (fun i => map (fun t => (yo + i, t)) ts) (somes sl)) cnt out.
+Proof. exact out_days_is_gate. Qed.
+Print Assumptions C01_out_days_is_gate.
+
+(* one pass of a YEARLY rule without BYSETPOS: what reaches the until/dtstart/count gate is
+   [(o, t) | o <- days of year y accepted by RRSpec.day_ok, t <- time set], in order *)
+Theorem C01_yearly_pass_candidates : forall r rl y month ii ts cnt out,
+  normalize r = Ok rl -> spec_wf r = true -> r_freq r = YEARLY -> plain_only r = true ->
+  all_opt (r_byweekno r) weekno_safe = true ->
+  (r_byeaster r = None \/ 1583 <= y <= 4099) ->
+  2 <= y <= 9999 -> rebuild rl ii_init y month = Ok ii ->
+  exists ds ds' f,
+    getdayset rl ii y month 1 = Ok (ds, 0, year_len y) /\
+    filter_loop rl ii (py_slice ds 0 (year_len y)) ds false = Ok (ds', f) /\
+    out_days rl (yearordinal ii) (py_slice ds' 0 (year_len y)) ts cnt out =
+    gate_list rl (flat_map (fun o => map (fun t => (o, t)) ts)
+                           (filter (day_ok r) (zrange (jan1 y) (jan1 (y + 1))))) cnt out.
+Proof. exact yearly_pass_candidates. Qed.
+Print Assumptions C01_yearly_pass_candidates.
+
+(* ------------------------------------------------------------------ layer 7 building blocks *)
+(* the generator's until/dtstart/count gate yields exactly what the specification's take yields on the
+   candidates not earlier than the start (every candidate list, COUNT, UNTIL) *)
+Theorem C01_gate_is_spec_take : forall rl r,
+  dtstart_inst rl = sp_start r -> until rl = r_until r ->
+  forall xs cnt acc,
+  fst (fst (gate_list rl xs cnt acc)) =
+  fst (fst (sp_take r (filter (inst_le (sp_start r)) xs) cnt acc)).
+Proof. exact gate_list_items. Qed.
+Print Assumptions C01_gate_is_spec_take.
+
+Theorem C01_normalize_start_until : forall r rl,
+  normalize r = Ok rl -> valid_ymd (r_y r) (r_m r) (r_d r) = true ->
+  dtstart_inst rl = sp_start r /\ until rl = r_until r /\ count rl = r_count r.
+Proof. exact normalize_start_until. Qed.
+Print Assumptions C01_normalize_start_until.
+
+(* one pass of a YEARLY rule without BYSETPOS, end to end, against the specification *)
+Theorem C01_yearly_pass_yields : forall r rl y month ii ts cnt out,
+  normalize r = Ok rl -> spec_wf r = true -> r_freq r = YEARLY -> plain_only r = true ->
+  all_opt (r_byweekno r) weekno_safe = true ->
+  (r_byeaster r = None \/ 1583 <= y <= 4099) ->
+  2 <= y <= 9999 -> rebuild rl ii_init y month = Ok ii ->
+  exists ds ds' f,
+    getdayset rl ii y month 1 = Ok (ds, 0, year_len y) /\
+    filter_loop rl ii (py_slice ds 0 (year_len y)) ds false = Ok (ds', f) /\
+    fst (fst (out_days rl (yearordinal ii) (py_slice ds' 0 (year_len y)) ts cnt out)) =
+    fst (fst (sp_take r
+      (filter (inst_le (sp_start r))
+         (flat_map (fun o => map (fun t => (o, t)) ts)
+                   (filter (day_ok r) (zrange (jan1 y) (jan1 (y + 1)))))) cnt out)).
+Proof. exact yearly_pass_yields. Qed.
+Print Assumptions C01_yearly_pass_yields.
+
+(* the constructor's time set is the specification's period_times (FREQ coarser than HOURLY): the
+   lexicographic product of sorted duplicate-free valid lists is sorted, so sort() is the identity *)
+Theorem C01_timeset_is_spec : forall r rl,
+  normalize r = Ok rl -> spec_wf r = true -> (r_freq r <? HOURLY) = true ->
+  timeset rl = Some (period_times r 0).
+Proof. exact timeset_is_spec. Qed.
+Print Assumptions C01_timeset_is_spec.
+
+(* ONE PASS OF THE MODEL = ONE STEP OF THE SPECIFICATION, YEARLY without BYSETPOS, day-selecting parts
+   BYMONTH / BYMONTHDAY / BYYEARDAY / plain BYDAY / guarded BYWEEKNO / BYEASTER (1583..4099): for the
+   period k (year r_y + k*interval in 2..9999), with the iterinfo rebuild() produces, the instants the
+   pass adds to the output are exactly what the body of RRSpec.spec_loop adds for step k.
+   (Not proved: the induction over passes -- cursor of pass k, rebuild on a non-initial iterinfo,
+   stop conditions -- which would give rrule_iter_correct for this family.) *)
+Theorem C01_yearly_pass_is_spec_step : forall r rl k month ii ts cnt out,
+  normalize r = Ok rl -> spec_wf r = true -> r_freq r = YEARLY -> plain_only r = true ->
+  r_bysetpos r = None ->
+  all_opt (r_byweekno r) weekno_safe = true ->
+  let y := r_y r + k * r_interval r in
+  (r_byeaster r = None \/ 1583 <= y <= 4099) ->
+  2 <= y <= 9999 -> rebuild rl ii_init y month = Ok ii -> timeset rl = Some ts ->
+  exists ds ds' f,
+    getdayset rl ii y month 1 = Ok (ds, 0, year_len y) /\
+    filter_loop rl ii (py_slice ds 0 (year_len y)) ds false = Ok (ds', f) /\
+    fst (fst (out_days rl (yearordinal ii) (py_slice ds' 0 (year_len y)) ts cnt out)) =
+    fst (fst (sp_take r (step_items r k) cnt out)).
+Proof. exact yearly_pass_is_spec_step. Qed.
+Print Assumptions C01_yearly_pass_is_spec_step.
+
+(* toward the induction over passes: with no nth weekday, rebuild() after a year change does not
+   depend on the previous iterinfo *)
+Theorem C01_rebuild_from_previous_year : forall rl ii y month,
+  opt_neqb (lastyear ii) y = true -> truthy (bynweekday rl) = false -> nwdaymask ii = None ->
+  (truthy (byeaster rl) = true \/ eastermask ii = None) ->
+  rebuild rl ii y month = rebuild rl ii_init y month.
+Proof. exact rebuild_from_previous_year. Qed.
+Print Assumptions C01_rebuild_from_previous_year.
+
+(* rebuild() never raises for rules without nth weekdays (no IndexError, no ValueError): years 2..9999,
+   1583..4099 when BYEASTER is used; any BYWEEKNO list *)
+Theorem C01_rebuild_succeeds : forall rl y month,
+  2 <= y <= 9999 -> 0 <= wkst rl <= 6 -> truthy (bynweekday rl) = false ->
+  (truthy (byeaster rl) = false \/ 1583 <= y <= 4099) ->
+  exists ii', rebuild rl ii_init y month = Ok ii'.
+Proof. exact rebuild_succeeds. Qed.
+Print Assumptions C01_rebuild_succeeds.
+
+(* ------------------------------------------------------------------ layer 7: rrule_iter_correct, one family *)
+(* Full statement of DESIGN.md (FALSE of the code, see the refuted theorems; not proved under guards):
+     forall raw rule n, normalize raw = Some rule ->
+       observable (iter_periods rule (fuel_for rule n)) n = spec_iter rule n.
+   Proved part (rrule_iter_correct_partial): every YEARLY rule without BYSETPOS / COUNT / UNTIL / BYEASTER
+   whose day-selecting parts are BYMONTH, BYMONTHDAY, BYYEARDAY, plain BYDAY and BYWEEKNO within the
+   guard of F-C01-weekno (members in -51..51), start year >= 2: for every number of passes n that stays
+   within year 9999 and every limit, model and specification yield the same instants in the same order
+   (constructor + rebuild + day set + filter + time set + gate + advance, by induction over passes). *)
+Theorem C01_rrule_iter_correct_partial : forall r rl limit n,
+  normalize r = Ok rl -> yfam r -> 2 <= r_y r -> r_y r + Z.of_nat n * r_interval r <= 9999 ->
+  fst (iterate rl limit n) = fst (spec_iter r limit n).
+Proof. exact yearly_iter_correct. Qed.
+Print Assumptions C01_rrule_iter_correct_partial.
+
+(* the same with BYEASTER, when every pass stays within the years of C19's theorem (1583..4099) *)
+Theorem C01_rrule_iter_correct_easter_partial : forall r rl limit n,
+  normalize r = Ok rl -> yfam_e r -> 2 <= r_y r -> r_y r + Z.of_nat n * r_interval r <= 9999 ->
+  (r_byeaster r = None \/ (1583 <= r_y r /\ r_y r + Z.of_nat n * r_interval r <= 4099)) ->
+  fst (iterate rl limit n) = fst (spec_iter r limit n).
+Proof. exact yearly_iter_correct_e. Qed.
+Print Assumptions C01_rrule_iter_correct_easter_partial.
